@@ -23,10 +23,10 @@ Enumerations: indent_style 0 visual / 1 block; brace_style 0 AlwaysNextLine / 1 
   bud.where_visual_pinned <max_width> <tab_spaces> S                       -> n | panic
   bud.where_visual <max_width> <tab_spaces> S                              -> n
   bud.where_clause_shape <max_width> <tab_spaces> S                        -> shape | err:<w>
-  bud.sig <max_width> <tab_spaces> <indent_style> <fn_params_layout> I <prefix> <ret> <preds> <brace> <param>…
-        -> <one_line_budget>:<tactic v|h|m>:<params_in_block>:<ret_should_indent>:<closing_paren_overflow>:<force_newline_brace>:<one_line>
-  bud.sig_brace <max_width> <tab_spaces> <indent_style> <fn_params_layout> <brace_style> I <prefix> <ret> <preds> <brace> <param>…
-        -> 0 | 1 | ?      the opening brace on the next line (`?`: the model does not know the last line)
+  bud.sig <max_width> <tab_spaces> <indent_style> <fn_params_layout> <brace_style> I <prefix> <ret> <preds> <has_body> <param>…
+        -> <one_line_budget>:<tactic v|h|m>:<params_in_block>:<ret_should_indent>:<closing_paren_overflow>:<force_newline_brace>:<one_line>:<brace on next line 0|1|?>
+     (the fn brace style is `newline_for_brace` for a function with body, `None` else; `?`: the model
+      does not know the last line of the signature)
 -/
 namespace RF.Driver.Budgets
 open RF.Shape RF.Budgets RF.Driver.Shape
@@ -100,23 +100,18 @@ def handleNums (op : String) (a : List Nat) : Option String :=
     pure (toString (where_visual_budget { max_width := mw, tab_spaces := ts } ⟨w, ⟨b, al⟩, o⟩))
   | "bud.where_clause_shape", [mw, ts, w, b, al, o] =>
     pure (encR encShape (where_clause_shape { max_width := mw, tab_spaces := ts } ⟨w, ⟨b, al⟩, o⟩))
-  | "bud.sig", mw :: ts :: is :: d :: b :: al :: pre :: ret :: preds :: br :: params => do
-    let c : Cfg := { max_width := mw, tab_spaces := ts, indent_style := (← decIS is),
-                     fn_params_layout := (← decD d) }
-    let s : Sig := ⟨⟨b, al⟩, pre, params, ret, preds, (← decFB br)⟩
-    let l := sig_layout c s
-    pure (":".intercalate [toString l.one_line_budget, encTactic l.tactic, b01 l.params_in_block,
-      b01 l.ret_should_indent, b01 l.closing_paren_overflow, b01 l.force_newline_brace,
-      b01 (sig_one_line c s)])
-  | "bud.sig_brace", mw :: ts :: is :: d :: bs :: b :: al :: pre :: ret :: preds :: br :: params => do
+  | "bud.sig", mw :: ts :: is :: d :: bs :: b :: al :: pre :: ret :: preds :: hasBody :: params => do
     let c : Cfg := { max_width := mw, tab_spaces := ts, indent_style := (← decIS is),
                      fn_params_layout := (← decD d), brace_style := (← decBS bs) }
-    let s : Sig := ⟨⟨b, al⟩, pre, params, ret, preds, (← decFB br)⟩
-    match sig_last_line_width c s with
-    | none => pure "?"
-    | some w =>
-      pure (b01 (brace_on_next_line c preds (sig_layout c s).force_newline_brace w
-        (saturatingSub mw s.indent.width)))
+    let brace := if (← decBool hasBody) then newline_for_brace c preds else FnBraceStyle.none
+    let s : Sig := ⟨⟨b, al⟩, pre, params, ret, preds, brace⟩
+    let l := sig_layout c s
+    let br := match sig_last_line_width c s with
+      | none => "?"
+      | some w => b01 (brace_on_next_line c preds l.force_newline_brace w (saturatingSub mw s.indent.width))
+    pure (":".intercalate [toString l.one_line_budget, encTactic l.tactic, b01 l.params_in_block,
+      b01 l.ret_should_indent, b01 l.closing_paren_overflow, b01 l.force_newline_brace,
+      b01 (sig_one_line c s), br])
   | _, _ => none
 
 def handle (op : String) (args : List String) : Option String :=
